@@ -13,7 +13,7 @@ tvars == <<vars, l, failed>>
 AllCons == {"t1", "t2", "hls"}
 TraceInit == /\ l = 1 /\ failed = FALSE /\ TLCSet(1, 1)
              /\ vc = "none" /\ ac = "none" /\ hist = HistInit /\ cons = [c \in AllCons |-> ConsInit]
-             /\ rtp = RtpInit /\ rm = RmInit /\ act = [name |-> "init"]
+             /\ rtp = [c \in RtpCons |-> RtpInit] /\ rm = RmInit /\ act = [name |-> "init"]
 IsEvent(e) == l <= Len(Trace) /\ Trace[l].ev = e /\ l' = l + 1
 Reject(why) == /\ failed' = TRUE
                /\ IF failed THEN TRUE ELSE PrintT("@REJ@" \o ToString(l)) /\ PrintT("@WHY@" \o ToString(l) \o "@" \o ToString(why))
@@ -22,12 +22,16 @@ Reject(why) == /\ failed' = TRUE
 TraceReset ==
   /\ IsEvent("reset")
   /\ vc' = Trace[l].v /\ ac' = Trace[l].a /\ hist' = HistInit /\ cons' = [c \in AllCons |-> ConsInit]
-  /\ rtp' = RtpInit /\ failed' = FALSE /\ UNCHANGED <<rm, act>>
+  /\ rtp' = [c \in RtpCons |-> RtpInit] /\ failed' = FALSE /\ UNCHANGED <<rm, act>>
 
 TraceJoin == /\ IsEvent("Join") /\ UNCHANGED <<vc, ac, hist, cons, rtp, rm, act, failed>>
 
 ConsAfter(h, o) == [c \in AllCons |-> IF c \in DOMAIN o THEN AcceptOut(h, cons[c], o[c]) ELSE cons[c]]
-RtpAfter(h, e) == IF "rtp" \in DOMAIN e THEN AcceptRtp(h, AcceptSdps(h, rtp, e.sdp, 1), e.rtp, 1) ELSE rtp
+RtpAfter(h, e) == IF "rtp" \in DOMAIN e
+                  THEN [c \in RtpCons |-> LET o == e.rtp[c] IN
+                         IF o.panic = "" THEN AcceptRtp(h, AcceptSdps(h, rtp[c], o.sdp, 1, o.late), o.frames, 1)
+                         ELSE [rtp[c] EXCEPT !.ok = FALSE]]
+                  ELSE rtp
 
 TracePub ==
   /\ IsEvent("Pub")
@@ -38,9 +42,9 @@ TracePub ==
      IN IF /\ ~failed /\ e.panic = ""
            /\ IsT3(e.ts)
            /\ \A c \in AllCons : c2[c].ok
-           /\ ("rtp" \in DOMAIN e => e.rtpPanic = "" /\ r2.ok)
+           /\ \A c \in RtpCons : r2[c].ok
         THEN hist' = h2 /\ cons' = c2 /\ rtp' = r2 /\ failed' = FALSE /\ UNCHANGED <<vc, ac, rm, act>>
-        ELSE Reject({c \in AllCons : ~c2[c].ok} \cup (IF r2.ok THEN {} ELSE {"rtp"}) \cup (IF e.panic = "" THEN {} ELSE {"panic"}))
+        ELSE Reject({c \in AllCons : ~c2[c].ok} \cup {c \in RtpCons : ~r2[c].ok} \cup (IF e.panic = "" THEN {} ELSE {"panic"}))
 
 TraceEnd ==
   /\ IsEvent("End")
@@ -49,10 +53,10 @@ TraceEnd ==
          c2 == [c1 EXCEPT !["hls"] = AcceptOut(hist, c1["hls"], e.hls)]
      IN IF /\ ~failed /\ e.panic = ""
            /\ \A c \in AllCons : c2[c].ok /\ EndOk(hist, c2[c])
-           /\ RtpEndOk(hist, rtp)
+           /\ \A c \in RtpCons : RtpEndOk(hist, rtp[c])
         THEN cons' = c2 /\ failed' = FALSE /\ UNCHANGED <<vc, ac, hist, rtp, rm, act>>
         ELSE Reject({c \in AllCons : ~c2[c].ok} \cup {"end:" \o c : c \in {x \in AllCons : c2[x].ok /\ ~EndOk(hist, c2[x])}}
-                    \cup (IF RtpEndOk(hist, rtp) THEN {} ELSE {"end:rtp"}) \cup (IF e.panic = "" THEN {} ELSE {"panic"}))
+                    \cup {"end:" \o c : c \in {x \in RtpCons : ~RtpEndOk(hist, rtp[x])}} \cup (IF e.panic = "" THEN {} ELSE {"panic"}))
 
 TraceNext == TraceReset \/ TraceJoin \/ TracePub \/ TraceEnd
 TraceSpec == TraceInit /\ [][TraceNext]_tvars
